@@ -508,7 +508,7 @@ func Read(r io.Reader) (*Font, error) {
 			ScriptList: map[language.Tag]*gtab.Features{
 				// "und-Zzzz-x-dflt" is the tag under which gtab.Read files the
 				// DFLT script, so that the table survives a write/read cycle.
-				language.MustParse("und-Zzzz-x-dflt"): {Required: 0, Optional: []gtab.FeatureIndex{}},
+				language.MustParse("und-Zzzz-x-dflt"): {Required: 0xFFFF, Optional: []gtab.FeatureIndex{0}},
 			},
 			FeatureList: []*gtab.Feature{
 				{Tag: "kern", Lookups: []gtab.LookupIndex{0}},
